@@ -12,6 +12,12 @@ Oracle (independent of the model and of the code): dual-number arithmetic over F
 from the mathematical definitions (harness/c10_tree.py); mpmath (60 digits) for KS/IKS.
 It also checks that no operand value is modified in place: arrays returned by user functions,
 arrays given as arguments, public coefficient arrays and `last_eval` of the operands.
+
+Sessions (harness/c10_hist.py): histories on ONE tree - the caller's point buffer updated in place
+between evaluate/jac (every order), public parameters of linear/quadratic/user functions reassigned
+or edited in place, trees built before and after the edit, sub-expressions called on their own.
+Every call is judged by the same oracle on the operands as they are now at the current content of
+the buffer, and compared with the session state machine of the model (`step` in Model/C10.lean).
 """
 
 from __future__ import annotations
@@ -45,6 +51,7 @@ from harness.c10_tree import protocol_line
 from harness.c10_tree import smooth_agg_reference
 from harness.c10_tree import tree_depth
 from harness.c10_tree import tree_ops
+from harness import c10_hist as hist
 
 PID = "C10"
 REL = Fraction(1, 2**40)
@@ -667,8 +674,11 @@ def simple_leaf(n: int, m: int, variant: int) -> dict:
 def fails(case: dict, clause: str | None) -> list[tuple[str, str]]:
     try:
         out_dim(case["tree"], case["n"])
-        obs = observe(case)
-        bad = judge(case, obs)
+        if case.get("hist"):
+            bad = hist.judge_session(case, hist.observe_session(case), session_expect)
+        else:
+            obs = observe(case)
+            bad = judge(case, obs)
     except (IllShaped, Undefined):
         return []
     except Exception:  # noqa: BLE001
@@ -919,6 +929,205 @@ def search_failing_input(res: Result, case: dict) -> bool:
 
 
 
+# --------------------------------------------------------------------------- sessions (histories on one tree)
+
+SESSION_GENS = {
+    "case": lambda rng, max_depth, smooth=False: gen_case(rng, max_depth=max_depth, smooth=smooth),
+    "smooth": lambda tree: has_smooth(tree),
+    "point": gen_point,
+    "poly": gen_poly,
+    "quad": gen_quad,
+    "in_scope": in_scope_points,
+}
+
+
+def gen_session_case(rng) -> dict | None:
+    return hist.gen_session_case(rng, SESSION_GENS)
+
+
+SWEEP_KINDS = [
+    "add", "sub", "mul", "div", "neg", "offn", "offa", "res", "lc", "cat", "t1", "t2", "cl",
+    "agg-sumsq", "agg-possumsq", "agg-max", "agg-uks", "agg-lks", "agg-iks", "nrm", "lres", "lin", "quad", "poly",
+]
+SWEEP_CALLS = ("v", "j", "f")
+SWEEP_MIDS = ("nothing", "x-inplace", "x-fresh-equal", "x-fresh-new")
+
+
+def gen_tree_of_kind(rng, kind: str) -> tuple[int, dict] | None:
+    """A random tree whose root is of the given kind (operators: both operands are functions)."""
+    for _ in range(400):
+        n = rng.pick([1, 2, 2, 3])
+        m = rng.pick([1, 2, 3])
+        if rng.chance(0.4):
+            m = n
+        if kind.startswith("agg-"):
+            tree = gen_agg(rng, n, 1, kind[4:])
+        elif kind == "lin":
+            tree = gen_lin(rng, n, m)
+        elif kind == "quad":
+            tree = gen_quad(rng, n)
+        elif kind == "poly":
+            tree = gen_poly(rng, n, m)
+        elif kind in BINOPS:
+            tree = {"op": kind, "a": gen_node(rng, n, m, 1), "b": gen_node(rng, n, rng.pick([m, m, 1]), 1)}
+        elif kind in ("nrm", "lres"):
+            tree = gen_linear(rng, n, m, 2, True)
+        else:
+            tree = gen_node(rng, n, m, 2, top=True)
+        if tree["op"] != ("agg" if kind.startswith("agg-") else kind):
+            continue
+        try:
+            out_dim(tree, n)
+        except IllShaped:
+            continue
+        return n, tree
+    return None
+
+
+def gen_sweep_sessions(rng, calls=SWEEP_CALLS, mids=SWEEP_MIDS, trees_per_kind: int = 1) -> list[dict]:
+    """For EVERY root node kind and EVERY pair of successive calls with every kind of buffer update in
+    between: `c1 ; (nothing | x[:] = p2 | x = array(p1) | x = array(p2)) ; c2`."""
+    out = []
+    for kind in SWEEP_KINDS:
+        for _ in range(trees_per_kind):
+            nt = gen_tree_of_kind(rng, kind)
+            if nt is None:
+                continue
+            n, tree = nt
+            pts = in_scope_points(tree, n, [gen_point(rng, n) for _ in range(10)])
+            pts = [p for i, p in enumerate(pts) if p not in pts[:i]]
+            if len(pts) < 2:
+                continue
+            for c1 in calls:
+                for mid in mids:
+                    for c2 in calls:
+                        p1, p2 = pts[0], pts[1]
+                        script = [{"do": "x", "p": p1, "how": "fresh"}, {"do": c1}]
+                        if mid == "x-inplace":
+                            script.append({"do": "x", "p": p2, "how": "inplace"})
+                        elif mid == "x-fresh-equal":
+                            script.append({"do": "x", "p": list(p1), "how": "fresh"})
+                        elif mid == "x-fresh-new":
+                            script.append({"do": "x", "p": p2, "how": "fresh"})
+                        script.append({"do": c2})
+                        out.append({"hist": True, "n": n, "tree": tree, "script": script, "sweep": kind})
+    return out
+
+
+def session_expect(desc: dict, x: list[Fraction]):
+    """The oracle for a tree description at an exact point (see hist.judge_session)."""
+    if has_smooth(desc):
+        exp_v, exp_j, bounds = smooth_expectation(desc, x)
+        return exp_v, exp_j, (lambda g, e: close_any(g, e, True)), bounds
+    exp_v, exp_j, _ = oracle_eval(desc, x)
+    return exp_v, exp_j, close, None
+
+
+def session_key(small: dict, clause: str) -> str:
+    """`history-<clause>` when the failure needs a history (several calls, an in-place update of the
+    point buffer, an edit of a parameter); the plain clause when one call on a fresh array fails."""
+    sig = root_sig(small["tree"], small["n"])
+    return f"{'history-' if hist.is_history(small) else ''}{clause}:{sig}"
+
+
+def plain_failure_of_session(case: dict, obs: dict) -> tuple[dict, list[tuple[str, str]]] | None:
+    """A history-free witness: the tree with the parameters in force at some call of the session,
+    evaluated once on fresh arrays at the point of that call, already violates the property."""
+    descs = hist.descs_of(case, obs)
+    cur = None
+    tried = set()
+    for k, st in enumerate(case["script"]):
+        if st["do"] == "x":
+            cur = st["p"]
+        elif st["do"] in hist.CALLS and cur is not None:
+            c = {"n": case["n"], "tree": descs[k], "points": [cur], "order": "vj"}
+            key = case_key(c)
+            if key in tried:
+                continue
+            tried.add(key)
+            if len(tried) > 6:
+                break
+            b = fails(c, None)
+            if b:
+                return c, b
+    return None
+
+
+def check_sessions(res: Result, cases: list[dict], use_model: bool = True) -> None:
+    all_lines: list[str] = []
+    spans_of: list[tuple[int, list[tuple[int, int]]]] = []
+    for c in cases:
+        ls, spans = hist.session_lines(c)
+        spans_of.append((len(all_lines), spans))
+        all_lines += ls
+    out = common.run_lean_driver(PID, all_lines) if use_model and driver_available() and all_lines else None
+    for case, (base, spans) in zip(cases, spans_of):
+        res.evaluations += 1
+        tree, n = case["tree"], case["n"]
+        try:
+            obs = hist.observe_session(case)
+        except (IllShaped, Undefined):
+            res.count("skipped-ill-shaped")
+            continue
+        res.count("stream:session")
+        sc = case["script"]
+        res.count(f"session-calls={min(sum(1 for s in sc if s['do'] in hist.CALLS), 9)}")
+        for s_ in sc:
+            if s_["do"] == "set":
+                res.count(f"session-set:{s_['attr']}({s_['how']})")
+            elif s_["do"] == "x":
+                res.count(f"session-x:{s_['how']}")
+            else:
+                res.count("session-step:" + s_["do"])
+        for pat in hist.script_patterns(case):
+            res.count("session-history:" + pat)
+        for o in set(tree_ops(tree)):
+            res.count("session-op:" + o)
+        res.nontrivial("session:" + json.dumps([n, tree, sc], sort_keys=True))
+        bad = hist.judge_session(case, obs, session_expect, res)
+        first_call = next((r for s_, r in zip(sc, obs.get("steps", [])) if s_["do"] in hist.CALLS), {})
+        fa, fb = spans[next(i for i, s_ in enumerate(sc) if s_["do"] in hist.CALLS)]
+        res.sample({"protocol_line": "; ".join(hist.session_lines(case)[0][:4]) + " ...", "impl_value": first_call.get("got", first_call.get("exc")),
+                    "model": out[base + fb - 1] if out and fb > fa else None})
+        reported = False
+        plain_done = False
+        for clause, msg in bad:
+            if not plain_done:
+                # does a single call on a fresh array already fail (with the operands as they are at that step)?
+                plain_done = True
+                plain = plain_failure_of_session(case, obs)
+                if plain is not None:
+                    pcase, pbad = plain
+                    for pclause, pmsg in pbad:
+                        small, sclause = shrink(pcase, pclause)
+                        small_bad = fails(small, sclause) or [(pclause, pmsg)]
+                        res.violate("oracle", f"{sclause}:{root_sig(small['tree'], small['n'])}",
+                                    small_bad[0][1] + f" [tree root: {root_sig(small['tree'], small['n'])}] [found by the session stream]",
+                                    {"case": small, "clause": sclause, "original_case": case})
+                    reported = True
+                    break
+            small, sclause = hist.shrink_session(case, clause, fails, local_point)
+            small_bad = fails(small, sclause) or [(clause, msg)]
+            res.violate("oracle", session_key(small, sclause), small_bad[0][1] + f" [tree root: {root_sig(small['tree'], small['n'])}]",
+                        {"case": small, "clause": sclause, "original_case": case if small != case else None})
+            reported = True
+        if out is not None and "build_exc" not in obs:
+            answers = [out[base + i] for i in range(spans[-1][1])] if spans else []
+            diffs = hist.compare_session_with_model(case, obs, answers, spans, close, parse_model, Q)
+            if diffs:
+                res.disagreements += 1
+                if not reported:
+                    res.violate(
+                        "correspondence",
+                        f"model-vs-impl:session:{root_sig(tree, n)}",
+                        "implementation and Lean model disagree on a session (the oracle holds on it): " + diffs[0],
+                        {"case": case, "protocol_lines": hist.session_lines(case)[0], "model": answers, "differences": diffs,
+                         "correspondence": "Driver/C10.lean sessions (`step` of Model/C10.lean)"},
+                    )
+            else:
+                res.traces_validated += 1
+
+
 # --------------------------------------------------------------------------- ConstraintAggregation discipline
 
 DISC_METHOD = {"sumsq": "SUM", "possumsq": "POS_SUM", "max": "MAX", "uks": "upper_bound_KS", "lks": "lower_bound_KS", "iks": "IKS"}
@@ -1141,19 +1350,29 @@ def run(ctx) -> Result:
         "random expression trees (depth 1-4; input dimension 1-3 (+frozen inputs), output dimension 1-4 with n==m over-represented; "
         "polynomial/linear/quadratic leaves with small integer coefficients; second operands: function of the same dimension, scalar "
         "function, number, array) evaluated at 2 integer or half-integer points, each twice and in both call orders; "
-        "a case is non-trivial when its tree has depth >= 2; distinct by (tree, points)"
+        "a case is non-trivial when its tree has depth >= 2; distinct by (tree, points). "
+        "Sessions (harness/c10_hist.py): one tree (all node kinds, KS/IKS roots included), one point buffer owned by the caller, a script of "
+        "7-14 steps among: in-place update of the buffer / another array (equal or new content), evaluate / jac / func of the root or of a "
+        "sub-expression, edit of a public parameter of a leaf (quad_coeffs, linear_coeffs, coefficients, value_at_zero by setter, whole-array "
+        "or single-entry in-place write; func/jac of a user function), tree kept (call-time paths only) or rebuilt; every session is non-trivial, "
+        "distinct by (tree, script)"
     )
     res.assumptions = [
         "evaluation points keep every divisor >= 1/2 in magnitude and avoid the singular set x_i = x_hat_i of convex linearisations",
         "the Jacobian of `max` is only claimed where the maximiser is unique",
         "KS/IKS aggregations are at the root of the tree (rounded stream, mpmath reference)",
         "sum-of-squares aggregations with a scale are taken as sum(scale * g^2) (the code's documented parameter); KS/IKS/max aggregate scale * g",
+        "sessions: after an edit of an operand, a tree built BEFORE the edit is called again only if every node between the root and the operand "
+        "calls it at call time (operators, generic neg/offset, restriction, linear composition, concatenation, aggregations); the linear overrides, "
+        "Taylor polynomials and convex linearisations copy/evaluate the operand at construction and are rebuilt (the property does not say which "
+        "parameters they should follow); the current parameters of an object are what its public getters return",
     ]
     rng = ctx.rng
     n_cases = 12000 if ctx.thorough else 2000
     n_smooth = 2000 if ctx.thorough else 150
     corpus = load_corpus()
-    check_cases(res, corpus, True)
+    check_cases(res, [c for c in corpus if not c.get("hist")], True)
+    check_sessions(res, [c for c in corpus if c.get("hist")])
     res.count("corpus", len(corpus))
     batch: list[dict] = []
     import time
@@ -1173,6 +1392,23 @@ def run(ctx) -> Result:
         if c is not None:
             smooth.append(c)
     check_cases(res, smooth, True)
+    sweep = (gen_sweep_sessions(rng, trees_per_kind=3) if ctx.thorough
+             else gen_sweep_sessions(rng, calls=("v", "j"), mids=("nothing", "x-inplace", "x-fresh-equal")))
+    for c in sweep:
+        res.count("session-sweep-kind:" + c["sweep"])
+    for i in range(0, len(sweep), 400):
+        check_sessions(res, sweep[i : i + 400])
+    n_sess = 6000 if ctx.thorough else 700
+    sessions: list[dict] = []
+    while len(sessions) < n_sess:
+        c = gen_session_case(rng)
+        if c is not None:
+            sessions.append(c)
+    for i in range(0, len(sessions), 300):
+        if time.time() > ctx.deadline:
+            res.notes.append(f"deadline reached after {i} sessions")
+            break
+        check_sessions(res, sessions[i : i + 300])
     probes = [c for c in (gen_probe_case(rng) for _ in range(60)) if c is not None]
     check_cases(res, probes, False)
     res.count("stream:probe(out-of-scope)", len(probes))
@@ -1191,6 +1427,40 @@ def run(ctx) -> Result:
     return res
 
 
+def replay_session(case: dict) -> int:
+    obs = hist.observe_session(case)
+    bad = hist.judge_session(case, obs, session_expect)
+    descs = hist.descs_of(case, obs)
+    ans = None
+    if driver_available():
+        lines, spans = hist.session_lines(case)
+        out = common.run_lean_driver(PID, lines)
+        ans = [out[b - 1] if b > a else None for a, b in spans]
+    cur = None
+    for k, (st, rec) in enumerate(zip(case["script"], obs.get("steps", []))):
+        d = st["do"]
+        if d == "x":
+            cur = st["p"]
+            print(f"[{k}] point buffer {'updated in place' if st['how'] == 'inplace' else '= new array'}: {cur}")
+        elif d == "set":
+            print(f"[{k}] set {st['attr']} of node {st['leaf']} ({st['how']}): {st.get('val')} -> public attributes now {rec.get('readback')}")
+        elif d == "rebuild":
+            print(f"[{k}] the operations are built again on the same leaf objects")
+        else:
+            print(f"[{k}] {'jac' if d == 'j' else 'evaluate' if d == 'v' else 'func'}(x){' of node %d' % st['on'] if st.get('on') else ''} ->", rec.get("got", rec.get("exc")))
+            try:
+                target = descs[k] if not st.get("on") else hist.walk(descs[k], case["n"])[st["on"]][0]
+                ev, ej, _ = oracle_eval(target, [Fraction(t) for t in cur])
+                print("      exact:", [rat(q.v) for q in ev] if d != "j" else (None if ej is None else [[rat(c.v) for c in r] for r in ej]))
+            except Undefined as e:
+                print("      (oracle undefined here:", e, ")")
+            if ans and ans[k]:
+                print("      model:", ans[k])
+    for k, msg in bad:
+        print("ORACLE FAILS:", k, msg)
+    return 1 if bad else 0
+
+
 def replay(path: str) -> int:
     data = json.loads(open(path).read())
     rp = data["replay"]
@@ -1198,6 +1468,8 @@ def replay(path: str) -> int:
     if case is None:
         print(json.dumps(rp, indent=1)[:3000])
         return 1
+    if case.get("hist"):
+        return replay_session(case)
     obs = observe(case)
     bad = judge(case, obs)
     for rec in obs.get("points", []):
